@@ -538,7 +538,7 @@ def run(ctx):
         if ctx.replay:
             runs = [['-replay', ctx.replay]] if any(l.startswith(('pfree ', 'pstrat ', 'cnc ')) for l in open(ctx.replay)) else []
         for free_args in runs:
-            what = 'real strategies' if 'strat' in free_args else 'CombinedNativeClient shared by several goroutines: lazily created registry clients and their request caches' if 'cnc' in free_args else 'free run'
+            what = 'replayed case' if '-replay' in free_args else 'real strategies' if 'strat' in free_args else 'CombinedNativeClient shared by several goroutines: lazily created registry clients and their request caches' if 'cnc' in free_args else 'free run'
             e = lib.goenv()
             e['GORACE'] = 'halt_on_error=1 exitcode=66'
             p = subprocess.run([race_bin] + free_args, stdout=subprocess.PIPE, stderr=subprocess.PIPE, text=True, timeout=1800, env=e, errors='replace')
@@ -550,8 +550,8 @@ def run(ctx):
                 running = [l[6:] for l in p.stderr.split('\n') if l.startswith('@case ')]
                 case = running[-1] if running else '# (case unknown)'
                 i = p.stderr.find('WARNING: DATA RACE')
-                ctx.violation('the race detector reports a data race (%s): %s' % (what if 'cnc' in free_args else 'inside guided remediation\'s patch computation, ' + what, rep or 'exit code 66'),
-                              [case] + ['# ' + l for l in p.stderr[i:].split('\n')[:45]], name='race-' + ('strat' if 'strat' in free_args else 'cnc' if 'cnc' in free_args else 'free'))
+                ctx.violation('the race detector reports a data race (%s): %s' % (what if ('cnc' in free_args or '-replay' in free_args) else 'inside guided remediation\'s patch computation, ' + what, rep or 'exit code 66'),
+                              [case] + ['# ' + l for l in p.stderr[i:].split('\n')[:45]], name='race-' + ('replay' if '-replay' in free_args else 'strat' if 'strat' in free_args else 'cnc' if 'cnc' in free_args else 'free'))
             elif p.returncode != 0:
                 ctx.violation('c16gen-race %s exited %d: %s' % (' '.join(free_args[:2]), p.returncode, p.stderr[-600:]), ['# see notes'], found_input=False, name='race-free-crash')
             if drv_ok:
